@@ -238,6 +238,8 @@ pub struct Layout {
     pub gap: usize,
     /// order of the pointer table (indices into `blocks`); empty = identity
     pub ptrs: Vec<usize>,
+    /// per-physical-position filler before each block (overrides `gap` when non-empty)
+    pub gaps: Vec<usize>,
 }
 
 /// Encodes a type-31 message body (starting at the type-31 header). Returns bytes and the
@@ -251,8 +253,9 @@ pub fn t31_body(h: &T31Header, blocks: &[Block], layout: &Layout) -> (Vec<u8>, V
     let table_at = out.len();
     out.resize(table_at + 4 * n, 0);
     let mut pos = vec![0u32; n];
-    for &bi in &phys {
-        out.extend(std::iter::repeat(0xA5u8).take(layout.gap));
+    for (k, &bi) in phys.iter().enumerate() {
+        let g = if layout.gaps.is_empty() { layout.gap } else { layout.gaps.get(k).copied().unwrap_or(0) };
+        out.extend(std::iter::repeat(0xA5u8).take(g));
         pos[bi] = out.len() as u32;
         out.extend_from_slice(&blocks[bi].bytes);
     }
